@@ -24,6 +24,7 @@ def instrOp : Instr → String × List Nat
   | .minus => ("Minus", []) | .bang => ("Bang", []) | .bnot => ("Not", [])
   | .jump t => ("Jump", [t]) | .jif t => ("JumpIfFalse", [t]) | .jifnp t => ("JumpIfFalseNoPop", [t])
   | .getGlobal i => ("GetGlobal", [i]) | .setGlobal i => ("SetGlobal", [i]) | .defGlobal i => ("DefineGlobal", [i])
+  | .dup => ("Dup", [])
 
 def encodeI (i : Instr) : List Nat :=
   let (n, ops) := instrOp i
@@ -36,7 +37,7 @@ def encode (is : List Instr) : List Nat := (is.map encodeI).flatten
 /-- the encoded length of every instruction is its `size` (checked over the generated tables) -/
 theorem encodeI_length_shapes :
     ([Instr.const 300, .pop, .op .add, .op .shr, .tru, .fls, .null, .minus, .bang, .bnot, .jump 70000, .jif 5, .jifnp 65535,
-      .getGlobal 1, .setGlobal 2, .defGlobal 3].all fun i => (encodeI i).length == i.size) = true := by decide
+      .getGlobal 1, .setGlobal 2, .defGlobal 3, .dup].all fun i => (encodeI i).length == i.size) = true := by decide
 
 /-! ## the fragment inside the AST -/
 
@@ -54,6 +55,73 @@ abbrev Vis := List (String × Nat)
 
 def globalIndex (vis : Vis) (name : String) : Option Nat := (vis.find? (·.1 == name)).map (·.2)
 
+/-- the kinds of match patterns (`MatchPattern::matches_type`: all patterns of a match must
+have the kind of the first one; a range has the kind of its bounds; `_` goes with everything) -/
+inductive PKind where | bool | int | str | char | byte
+deriving Repr, DecidableEq
+
+def patKind : Pat → Option PKind
+  | .pbool .. => some .bool
+  | .pint .. => some .int
+  | .pstr .. => some .str
+  | .pchar .. => some .char
+  | .pbyte .. => some .byte
+  | .prange _ _ (.int ..) _ => some .int
+  | .prange _ _ (.str ..) _ => some .str
+  | .prange _ _ (.char ..) _ => some .char
+  | .prange _ _ (.byte ..) _ => some .byte
+  | _ => none
+
+def armPats : Arm → List Pat
+  | .mk _ ps _ => ps
+
+/-- the compiler's check: every pattern has the kind of the first (the parser lets `_` be the
+first pattern only when it is the only one) -/
+def kindsUniform (arms : List Arm) : Bool :=
+  match arms.flatMap (fun a => (armPats a).filterMap patKind) with
+  | [] => true
+  | k :: rest => rest.all (· == k)
+
+/-- a pattern of the fragment: literals, ranges whose two bounds are literals of one kind
+(integer, string, char, byte), `_` -/
+def ofPat : Pat → Option CPat
+  | .pbool _ b => some (.bool b)
+  | .pint _ v => some (.lit (.int v))
+  | .pchar _ c => some (.lit (.char c))
+  | .pbyte _ b => some (.lit (.byte b))
+  | .pstr _ s => some (.lit (.str s))
+  | .prange _ op (.int _ a) (.int _ b) => some (.range (op != "..") (.int a) (.int b))
+  | .prange _ op (.str _ a) (.str _ b) => some (.range (op != "..") (.str a) (.str b))
+  | .prange _ op (.char _ a) (.char _ b) => some (.range (op != "..") (.char a) (.char b))
+  | .prange _ op (.byte _ a) (.byte _ b) => some (.range (op != "..") (.byte a) (.byte b))
+  | .pdef _ => some .dflt
+  | _ => none
+
+def ofPats : List Pat → Option (List CPat)
+  | [] => some []
+  | p :: ps => do
+    let p' ← ofPat p
+    let ps' ← ofPats ps
+    pure (p' :: ps')
+
+/-- the body of a match arm: `=> e` and `=> { e }` are a block holding one expression
+statement; `=> { }` yields null -/
+def armBody {α : Type} (f : Expr → Option α) (empty : α) : List Stmt → Option α
+  | [] => some empty
+  | [.exprS _ e] => f e
+  | _ => none
+
+theorem armBody_map {α β : Type} (f : Expr → Option α) (x : α) (g : α → β) (body : List Stmt) :
+    (armBody f x body).map g = armBody (fun e => (f e).map g) (g x) body := by
+  unfold armBody
+  split <;> simp
+
+/-- `some l`: this arm is the last one and its only pattern is `_` (on line `l`) -/
+def lastDefault? : List Pat → List Arm → Option Nat
+  | [.pdef l], [] => some l
+  | _, _ => none
+
+mutual
 def ofExpr (globals : Vis) : Nat → Expr → Option CExpr
   | 0, _ => none
   | fuel+1, e =>
@@ -99,7 +167,25 @@ def ofExpr (globals : Vis) : Nat → Expr → Option CExpr
       let i ← globalIndex globals name
       let r ← ofExpr globals fuel rhs
       pure (.gset i r)
+    | .matchE _ scrut arms => do
+      let s' ← ofExpr globals fuel scrut
+      let arms' ← ofArms globals fuel arms
+      if kindsUniform arms then pure (.matchE s' arms') else none
     | _ => none
+/-- the arms of a match: the last one must be the default arm (the parser guarantees it); an
+arm's body is `=> e`, `=> { e }` (both a block holding one expression statement) or `=> { }` -/
+def ofArms (globals : Vis) : Nat → List Arm → Option CArms
+  | 0, _ => none
+  | _+1, [] => none
+  | fuel+1, .mk _ pats (.mk _ body) :: rest => do
+    let b ← armBody (ofExpr globals fuel) CExpr.null body
+    match lastDefault? pats rest with
+    | some _ => pure (.last b)
+    | none => do
+      let ps ← ofPats pats
+      let r ← ofArms globals fuel rest
+      pure (.cons ps b r)
+end
 
 /-- top-level statements of the fragment (`let`, expression statements, blocks, unlabelled
 `while` loops without break/continue).  `n` = number of global slots defined so far (slots
